@@ -497,6 +497,9 @@ for _entry in ("Project.sync", "sync_projects", "Job.sync", "sync_jobs"):
         {"jobs": [_DEEP], "src_pdoc": None, "dst_pdoc": None, "options": _o(deep=True, entry=_entry)},
         {"jobs": [_DEEP], "src_pdoc": None, "dst_pdoc": None, "options": _o(deep=True, strategy="always", entry=_entry)},
         {"jobs": [_DEEP], "src_pdoc": None, "dst_pdoc": None, "options": _o(deep=True, strategy="never", entry=_entry)},
+        # deep without recursive (the two options are independent)
+        {"jobs": [_DEEP], "src_pdoc": None, "dst_pdoc": None, "options": _o(deep=True, recursive=False, entry=_entry)},
+        {"jobs": [_DEEP], "src_pdoc": None, "dst_pdoc": None, "options": _o(deep=True, recursive=False, strategy="always", entry=_entry)},
         # deep: one file is a proper prefix of the other and ends on a chunk boundary (empty, 8 KiB)
         {"jobs": [_job({"f.txt": _f("", "b", 1, 2), "g.bin": _f(sp.CHUNK, sp.CHUNK + "tail", 2, 1)}, None, None, {"a": 0})], "src_pdoc": None, "dst_pdoc": None, "options": _o(deep=True, entry=_entry)},
         {"jobs": [_job({"f.txt": _f("", "b", 1, 2), "g.bin": _f(sp.CHUNK, sp.CHUNK + "tail", 2, 1)}, None, None, {"a": 0})], "src_pdoc": None, "dst_pdoc": None, "options": _o(deep=True, strategy="always", entry=_entry)},
